@@ -89,6 +89,7 @@ type Engine struct {
 	loopBound int
 	maxPaths  int
 	prop      string
+	fnNames   map[*ssa.Package]map[string]bool
 	maxInstr  int
 
 	onceDone map[*Loc]bool
